@@ -36,6 +36,8 @@ HOSTILE_VALUES = [
     'utf_16_le', 'utf-16-be', 'big5', 'shift_jis', 'iso2022_jp', 'hz',
     'cp65001', 'string_escape', '7', '100', '4', '\xe9', '\xff',
     '9' * 4300, '9' * 4301, '1' + '0' * 5000, '-' + '9' * 4400,
+    # values that are a prefix of their own header line
+    '#', '#.', '#..', '#...meta', '#.preamble:',
     # almost-numbers and almost-names: what a backtracking pattern chokes on
     '1.' + '0' * 40 + '-rc1', '0' * 60 + 'x', '1.' * 30 + 'x',
     'a' * 40 + '/', '-' * 50 + 'x', '1' + '_0' * 30 + 'x', '1.0' * 25 + '_',
@@ -627,6 +629,36 @@ def run_sweep_chunk(index, st):
     if index % 8 == 0:
         # (four files are enough: the names matter, not the files)
         evals, nontrivial = run_key_sweep(index, st, data, recs)
+
+    # two faults on one content header: an option of the wrong type and
+    # content that cannot be read
+    for rec in recs:
+        if rec['kind'] == 'container':
+            continue
+
+        hstart, cstart, cend = rec['span']
+        header = data[hstart:cstart]
+        body = header.rstrip(b'\r\n')
+        tail = header[len(body):]
+
+        for extra in (b'mimetype=7', b'mimetype=0', b'format=7', b'type=5',
+                      b'line_endings=3', b'encoding=12', b'indent=x'):
+            for damage in ('cut', 'badbyte'):
+                content = data[cstart:cend]
+                content = (content[:-1] + b'x' if damage == 'cut'
+                           else b'\xff\xfe\xfd' + content[3:])
+                blob = (data[:hstart] + body + b', ' + extra + tail +
+                        content + data[cend:])
+                case = {'data': blob}
+
+                try:
+                    with sut.watchdog(WATCHDOG_S):
+                        judge(blob, st, case)
+                except sut.WatchdogTimeout:
+                    st.violation('no-termination-within-%ds' % WATCHDOG_S,
+                                 '%r on %s' % (extra, rec['section']), case)
+
+                evals += 1
 
     for rec in recs:
         hstart, cstart, _cend = rec['span']
